@@ -161,6 +161,7 @@ def concrete_monitor(trace, native):
     reqsent = {(d, k): False for d in deps for k in ('Build', 'Service')}
     wanted = {'Build': False, 'Service': False}
     terminated_ = False
+    told_ok_ = False
     msteps = [s for s in trace['steps'] if s['alt'][0] != 'stutter']
     for st, nat in zip(msteps, native['steps']):
         a = st['alt'][0]
@@ -213,6 +214,14 @@ def concrete_monitor(trace, native):
             if kindme == 'aggregate' and any(o[1] == 'Ok' and o[2] == k and o[3] == me for o in outs):
                 if any(not word[(d, k)] for d in deps):
                     viol.add('ok_without_cause')
+        if kindme in ('build', 'service'):
+            # C07: an execution failed while the last announcement to the requesters was Ok
+            ownk_ = 'Build' if kindme == 'build' else 'Service'
+            e_inv_ = any(o[1] == 'Invalidated' and o[2] == ownk_ and o[3] == me for o in outs)
+            e_ok_ = any(o[1] == 'Ok' and o[2] == ownk_ and o[3] == me for o in outs)
+            if (nat['errs'] or nat['spawn_failed']) and told_ok_ and not e_inv_:
+                viol.add('failed_while_acknowledged')
+            told_ok_ = False if e_inv_ else (True if e_ok_ else told_ok_)
         if kindme == 'build':
             # a successful result of a run that was invalidated in flight must not be acknowledged
             inval_now = bool((msg and msg[0] == 'Invalidated' and msg[1] == 'Build') or a == 'inval')
